@@ -89,6 +89,9 @@ func (e *Engine) native(st *State, fn *ssa.Function, name string, args []Value, 
 		base := e.freshBase()
 		e.copyBytes(st, base, e.k64(0), s.L[0], s.L[1], s.L[2])
 		nb := c.Ite(c.Eq(s.L[2], e.k64(0)), e.k64(0), base)
+		// a clone has the content of its source (content ids are what string equality compares)
+		clone := Value{T: s.T, L: []*smt.Term{nb, e.k64(0), s.L[2]}}
+		e.axiom(c.Eq(e.strID(clone), e.strID(s)))
 		return ret(rt(), nb, e.k64(0), s.L[2])
 	case "fmt.Errorf", "errors.New":
 		// a fresh, non-nil error value whose content is not modelled
